@@ -74,10 +74,15 @@ def run_base(den, Kd, P, snapshots):
     return run
 
 
-def run_step(den, P, snap):
+def run_step(den, P, snap, pf=None):
+    """pf: None = arbitrary precision counter (ghost pow10); an int = the loop head is reached with exactly pf digits
+    in the quotient (pf > P: the over-long first quotient, where any extra rounding of the result needs a concrete width)"""
     Xs, q, rem, prec, sc = z3.Ints('X quotient remainder precision scale')
 
     def run(m):
+        if pf is not None:
+            K.DIGITS_MAX[0] = pf + 3
+            m.assume(z3.And(prec == pf, P10(prec - 1) == 10 ** (pf - 1), P10(prec) == 10 ** pf))
         m.witness = {'X': Xs, 'quotient': q, 'remainder': rem, 'precision': prec, 'scale': sc}
         body = m.prog.by_name['impl_division']
         head = CP.find_loop_head(body, r'div_rem')
@@ -105,7 +110,18 @@ def run_step(den, P, snap):
             m.labels.add('step: invariant preserved')
             return [('invariant preserved by one digit', z3.Not(inv))]
         ri, rs = r.fields
-        m.labels.add('step: exit')
+        m.labels.add('step: exit' if pf is None else 'step-over: exit')
+        if pf is not None:
+            # concrete width: judge the result on the property itself (exact, or >= P digits within half a unit of ITS last
+            # place), whatever scale the code chose, so that a counterexample is a real failing division
+            k = m.concretize(sc - rs)
+            if k < 0:
+                return [('result keeps at least the digits of the exact prefix', True)]
+            v10 = ri * 10 ** k
+            err2 = 2 * (v10 * den * 10 - Xs)
+            half = 10 * den * 10 ** k
+            ok = z3.Or(v10 * den * 10 == Xs, z3.And(err2 >= -half, err2 <= half, ri >= 10 ** (P - 1)))
+            return [('over-long quotient: exact, or >= P digits within half a unit of the last place', z3.Not(ok))]
         return [('exit: exact, or >= P digits within half a unit (ties away from zero)', z3.Not(post_cond(ri, rs, Xs, sc, den, P)))]
     return run
 
@@ -317,6 +333,8 @@ def worker(t):
                 snaps = set()
             for snap in sorted(snaps):
                 out.append(H.explore_task(prog, run_step(den, P, snap), task=dict(t, phase='step'), loop_bound=400, timeout_ms=60000, deadline_s=600))
+                for pf in t.get('over', []):
+                    out.append(H.explore_task(prog, run_step(den, P, snap, pf), task=dict(t, phase='step-over', pf=pf), loop_bound=400, timeout_ms=60000, deadline_s=600))
             return out
         if k == 'signs':
             return H.explore_task(prog, run_signs(t['den'], t['P']), task=t, loop_bound=400, timeout_ms=60000, deadline_s=600)
@@ -358,7 +376,7 @@ def confirm(v, P):
     k = t['kind']
     if k in ('induction', 'signs'):
         den = t['den']
-        if t.get('phase') == 'step':
+        if t.get('phase') in ('step', 'step-over'):
             # a state at the loop head: replay the division it belongs to: X/10 = numerator at scale `scale`
             X, sc = mdl['X'], mdl['scale']
             if X % 10:
@@ -455,6 +473,10 @@ def main(tier):
                           + [97, 113, 10 ** 19 - 1, 10 ** 19 + 1, 2 ** 64 - 1, 2 ** 64 + 1, 2 ** 144, 5 ** 144] + [rng.randint(2, 10 ** 120) for _ in range(200)]))
         Kd = 40
     tasks = [{'kind': 'induction', 'den': d, 'K': Kd, 'P': P} for d in dens]
+    # over-long first quotient (numerator more than P digits longer than the denominator): the loop head is reached with
+    # P+1, P+2, P+19 digits already; concrete widths so that any further handling of the result is executed, not cut off
+    for t in tasks[:: (10 if tier == 'quick' else 4)] + [t for t in tasks if t['den'] in (3, 7, 10 ** 19 + 1, 2 ** 64 + 1)]:
+        t['over'] = [P + 1, P + 2, P + 19]
     for d in [3, -3, 7, -8, 10 ** 20 + 3, -(2 ** 70)]:
         tasks.append({'kind': 'signs', 'den': d, 'P': P})
     ovs = div_overloads(prog)
@@ -479,7 +501,7 @@ def main(tier):
                 tasks.append({'kind': 'overload', 'ov': ov, 'mode': 'shortcut', 'dval': dv, 'ga': ga, 'gb': gb, 'P': P})
             for dv in routes:
                 tasks.append({'kind': 'overload', 'ov': ov, 'mode': 'route', 'dval': dv, 'ga': ga, 'gb': gb, 'P': P})
-    rep.required_labels = {'base: reaches the digit loop', 'base: returns before the loop', 'step: invariant preserved', 'step: exit', 'zero divisor panics',
+    rep.required_labels = {'step-over: exit', 'base: reaches the digit loop', 'base: returns before the loop', 'step: invariant preserved', 'step: exit', 'zero divisor panics',
                            'routes to impl_division', 'signs: recursion'}
     rep.bounds = {'default_precision_read_from_dump': P, 'denominators': '%d concrete denominators (1..100|2000, 2^i5^j, boundary values, seeded up to 10^40|10^120)' % len(dens),
                   'numerators': 'all x with |x| < 10^%d for the base case (digit count of the first quotient); unbounded in the inductive step' % Kd,
